@@ -306,7 +306,7 @@ impl<T: ColumnType> std::fmt::Display for Record<T> {
                 stdout,
                 retry,
             } => {
-                writeln!(f, "system ok\n{command}")?;
+                write!(f, "system ok")?;
                 if let Some(retry) = retry {
                     write!(
                         f,
@@ -315,6 +315,7 @@ impl<T: ColumnType> std::fmt::Display for Record<T> {
                         humantime::format_duration(retry.backoff)
                     )?;
                 }
+                writeln!(f, "\n{command}")?;
                 if let Some(stdout) = stdout {
                     writeln!(f, "----\n{}\n", stdout.trim())?;
                 }
